@@ -46,6 +46,8 @@ def nested_closure(I, outer_qualname, name, env=None):
     node = mi.by_qualname['%s.<locals>.%s' % (outer_qualname, name)]
     parent = Frame(None, mi.module.__dict__, outer_qualname, 'segno.encoder')
     parent.locals.update(env or {})
+    I.extracted_roots.add(id(parent))
+    I._keep_frames = getattr(I, '_keep_frames', []) + [parent]      # keep the frame alive: its id identifies it
     return I.make_closure(node, parent, '%s.<locals>.%s' % (outer_qualname, name))
 
 
